@@ -1,5 +1,5 @@
 """C19: command-line tools: round trip, tamper/truncation detection, k-th I/O fault for every k (libc shim)."""
-import os, shutil, subprocess, hashlib, itertools
+import os, shutil, subprocess, hashlib, itertools, pty, select, time
 import build, common
 
 LEVEL = "fault_enumeration"
@@ -371,6 +371,76 @@ def run(ctx):
                     ctx.fail("asconcrypt:benign:short-io:%s-stdio" % mode, "%s stdin->stdout with 1-byte transfers fails (exit %d)" % (mode, rc), rep(args, env))
         shutil.rmtree(d, ignore_errors=True)
     common.parallel(stdio_modes, [0, 1, 17, B + 1] if not thorough else [0, 1, 16, 17, B - 16, B + 1, 2 * B + 5])
+
+    def run_tty(args, answers, cwd=None, timeout=60):
+        """run the tool on a pseudo-terminal (its controlling tty) and type one answer per 'assword: ' prompt"""
+        pid, fd = pty.fork()
+        if pid == 0:
+            try:
+                if cwd:
+                    os.chdir(cwd)
+                os.execv(args[0], args)
+            finally:
+                os._exit(127)
+        out, sent, answers, t0 = b"", 0, list(answers), time.time()
+        while True:
+            r, _, _ = select.select([fd], [], [], 0.2)
+            if r:
+                try:
+                    dta = os.read(fd, 4096)
+                except OSError:
+                    break
+                if not dta:
+                    break
+                out += dta
+            while answers and sent < out.count(b"assword: "):
+                os.write(fd, answers.pop(0) + b"\n")
+                sent += 1
+            if time.time() - t0 > timeout:
+                os.kill(pid, 9)
+                break
+        _, st = os.waitpid(pid, 0)
+        os.close(fd)
+        ctx.stat("evaluations")
+        return os.waitstatus_to_exitcode(st), out
+
+    def prompt_mode():
+        # no -p/-k: the password is typed at the terminal (twice when encrypting); it must interoperate with -p
+        d = wd()
+        data = content(B + 3, 1)
+        write(os.path.join(d, "in.bin"), data)
+        key = "asconcrypt:prompt"
+        for pw in (b"x", b"typed pass phrase", b"Q" * 300):
+            enc, out = os.path.join(d, "p.ascon"), os.path.join(d, "p.out")
+            for f in (enc, out):
+                if os.path.exists(f):
+                    os.unlink(f)
+            rc, o = run_tty([crypt, "-e", "-o", enc, os.path.join(d, "in.bin")], [pw, pw])
+            rc2, o2, e2 = tool([crypt, "-d", "-p", pw.decode(), "-o", out, enc])
+            if rc != 0 or rc2 != 0 or not os.path.isfile(out) or open(out, "rb").read() != data:
+                ctx.fail(key, "encrypt with a typed %d-character password (exit %d), decrypt with -p (exit %d): no round trip; terminal output %r" % (len(pw), rc, rc2, o[-80:]))
+            os.unlink(out) if os.path.exists(out) else None
+            rc, o = run_tty([crypt, "-d", "-o", out, enc], [pw])
+            if rc != 0 or not os.path.isfile(out) or open(out, "rb").read() != data:
+                ctx.fail(key, "decrypt with a typed %d-character password: exit %d" % (len(pw), rc))
+            os.unlink(out) if os.path.exists(out) else None
+            rc, o = run_tty([crypt, "-d", "-o", out, enc], [pw + b"!"])
+            if rc == 0 or os.path.exists(out):
+                ctx.fail("asconcrypt:wrong-password", "wrong typed password: exit %d, output %s" % (rc, "left behind" if os.path.exists(out) else "absent"))
+            ctx.stat("nontrivial", 3)
+        enc = os.path.join(d, "mm.ascon")
+        rc, o = run_tty([crypt, "-e", "-o", enc, os.path.join(d, "in.bin")], [b"one", b"other"])
+        if rc == 0 or os.path.exists(enc):
+            ctx.fail(key, "confirmation differs from the password: exit %d, output %s" % (rc, "left behind" if os.path.exists(enc) else "absent"))
+        # without a terminal the tool must refuse rather than use an empty password
+        rc, o, e = tool_io([crypt, "-e", "-o", enc, os.path.join(d, "in.bin")], b"pw\npw\n")
+        if rc == 0 or os.path.exists(enc):
+            ctx.fail(key, "no -p/-k and no terminal: exit %d, output %s" % (rc, "left behind" if os.path.exists(enc) else "absent"))
+        ctx.stat("nontrivial", 2)
+    try:
+        prompt_mode()
+    except OSError as ex:
+        ctx.cap("password-prompt mode not exercised: no pseudo-terminal available (%s)" % ex)
 
     def multi_file():
         # several inputs, default output names, direction detection by suffix; one bad file must not stop or spoil the others but must fail the exit status
